@@ -303,6 +303,16 @@ func ruleQ2(c *Ctx, id string) {
 		var p pred
 		// the predicate may live in a private helper shared by both siblings
 		for _, sc := range scopesOf(fn) {
+			// a helper that holds the journal access itself (the body of the loop as a local function) is part of
+			// the sibling, not a predicate: its comparisons are read by the side that goes on
+			inPredicate := sc.Fn != fn
+			for _, hb := range sc.Fn.Blocks {
+				for _, hin := range hb.Instrs {
+					if g := staticCallee(hin); g != nil && (g == c.V.OverWrite || g.Name() == "ReadBuf") {
+						inPredicate = false
+					}
+				}
+			}
 			for _, b := range sc.Fn.Blocks {
 				for _, in := range b.Instrs {
 					bo, ok := in.(*ssa.BinOp)
@@ -372,14 +382,14 @@ func ruleQ2(c *Ctx, id string) {
 					if _, fl, _, _ := loadedFieldS(bo.Y, sc.S); fl == "sz" {
 						op, _ := accSide()
 						p.hi = "key " + op.String() + " sz goes on"
-						if sc.Fn != fn {
+						if inPredicate {
 							p.hi = "key " + bo.Op.String() + " sz (in a predicate)"
 						}
 					}
 					if k, isk := constIntDeep(bo.Y); isk && k == constOfPkg(P, jrnlPath+"/common", "LOGSIZE") {
 						op, _ := accSide()
 						p.lo = "key " + op.String() + " LOGSIZE goes on"
-						if sc.Fn != fn {
+						if inPredicate {
 							p.lo = "key " + bo.Op.String() + " LOGSIZE (in a predicate)"
 						}
 					}
